@@ -48,7 +48,8 @@ def contraints_check(
                 "contraints_check: function_logger not passed, non bondcons requires it."
             )
         X = function_logger.variable_transformer.inverse_transf(U_new)
-        C = non_box_cons(X)
+        # (one violation per row: a column vector (N, 1) is accepted like (N,))
+        C = np.asarray(non_box_cons(X)).reshape(-1)
         idx = C <= 0
         U_new = U_new[idx]
 
